@@ -128,11 +128,16 @@ BRACKET_RULES = [("sum", "a [b] -> a b", [(2, 3)]), ("sum", "[a] b -> a", [(2, 3
                  ("argmax", "a b -> a", [(2, 3)]), ("sort", "[a b]", [(2, 3)]), ("id", "a -> a a", [(2,)]), ("add", "a, b -> c", [(2,), (3,)]), ("sum", "a [b] -> [b]", [(2, 3)])]
 
 
+CONCAT_NOT_ALLOWED = [("add", "c a, c b -> c (a + b)", [(2, 3), (2, 3)]), ("multiply", "c (a + b), c -> c (a + b)", [(2, 3), (2,)]), ("sum", "a (b + c)", [(2, 5)]), ("sum", "a [(b + c)]", [(2, 5)]),
+                      ("softmax", "a [(b + c)]", [(2, 5)]), ("flip", "a [(b + c)]", [(2, 5)]), ("dot", "a (b + c), (b + c) d -> a d", [(2, 5), (5, 2)]), ("mean", "(a + b) c -> c", [(5, 2)]),
+                      ("get_at", "[(a + b)] c, [1] -> c", [(5, 2), (1,)]), ("argmax", "a [(b + c)]", [(2, 5)])]
+
+
 def must_reject():
     """calls whose ill-formedness is certain from the documented rules: ambiguous implicit output; bracket rules of the operation families"""
     import einx
     out = []
-    for op, d, shapes in AMBIGUOUS + BRACKET_RULES:
+    for op, d, shapes in AMBIGUOUS + BRACKET_RULES + CONCAT_NOT_ALLOWED:
         ts = [np.arange(int(np.prod(s)), dtype=float).reshape(s) + (1 if op in ("less",) else 0) for s in shapes]
         if op == "where":
             ts[0] = ts[0] > 2
@@ -160,6 +165,23 @@ def must_reject_sizes():
         if r[0] == "ok":
             r = ("accepted", "returned a value", "-", f"a size keyword that cannot match the tensor shapes ({kw}) was accepted (fixed-width wrap-around?)")
         out.append((r, {"op": op, "description": d, "shapes": [list(t.shape) for t in ts], "kwargs": {k: str(v) for k, v in kw.items()}, "edit": "must-reject sizes", "seed_call": d, "backend": None}))
+    # a size of exactly 0 (as keyword, per-repetition entry or literal) contradicts every tensor with positive lengths
+    cases0 = [("id", "a b -> b a", [x23], {"a": 0}), ("id", "a... -> a...", [x23], {"a": (2, 0)}), ("sum", "a [0]", [x23], {}), ("id", "(a b) -> a b", [x6], {"b": 0}), ("sum", "a [b]", [x23], {"b": 0})]
+    for op, d, ts, kw in cases0:
+        r = classify(lambda: getattr(einx, op)(d, *ts, **kw))
+        if r[0] == "ok":
+            r = ("accepted", "returned a value", "-", f"a size of 0 that contradicts the tensor shapes ({kw or d}) was accepted")
+        out.append((r, {"op": op, "description": d, "shapes": [list(t.shape) for t in ts], "kwargs": {k: str(v) for k, v in kw.items()}, "edit": "must-reject sizes", "seed_call": d, "backend": None}))
+    for fn, d, kw in (("solve_axes", "a b", {"b": 0}), ("solve_shapes", "a b", {"a": 0}), ("matches", "a b", {"b": 0})):
+        box = {}
+
+        def call():
+            box["r"] = getattr(einx, fn)(d, x23, **kw)
+
+        r = classify(call)
+        if r[0] == "ok" and not (fn == "matches" and box.get("r") is False):
+            r = ("accepted", "returned a value", "-", f"einx.{fn} accepted the size 0 for a tensor dimension of positive length")
+        out.append((r, {"op": fn, "description": d, "shapes": [[2, 3]], "kwargs": {k: str(v) for k, v in kw.items()}, "edit": "must-reject sizes", "seed_call": d, "backend": None}))
     for fn, d, ts, kw in (("solve_axes", "(a b)", [x6], {"a": 2 ** 32 + 3}), ("solve_shapes", "(a b)", [x6], {"a": 2 ** 32 + 2})):
         r = classify(lambda: getattr(einx, fn)(d, *ts, **kw))
         if r[0] == "ok":
